@@ -493,4 +493,73 @@ theorem integer_kinds_source : Rapid.Generated.src_integerKinds =
      "uint64Kind: size=8 umax=math.MaxUint64",
      "uintptrKind: size=uintptrSize / 8 umax=maxUintptr"] := by decide
 
+/-- make.go is outside the model (reflection): its functions are re-read from /repo statement by statement — the generator chosen for every kind, the cast to the named type, pointers, arrays, slices, structs -/
+theorem make_kind_source : Rapid.Generated.body_newMakeKindGen =
+    ["{", "switch typ.Kind() {", "case reflect.Bool:", "return Bool().AsAny(), true", "case reflect.Int:",
+     "return Int().AsAny(), true", "case reflect.Int8:", "return Int8().AsAny(), true", "case reflect.Int16:",
+     "return Int16().AsAny(), true", "case reflect.Int32:", "return Int32().AsAny(), true", "case reflect.Int64:",
+     "return Int64().AsAny(), true", "case reflect.Uint:", "return Uint().AsAny(), true", "case reflect.Uint8:",
+     "return Uint8().AsAny(), true", "case reflect.Uint16:", "return Uint16().AsAny(), true", "case reflect.Uint32:",
+     "return Uint32().AsAny(), true", "case reflect.Uint64:", "return Uint64().AsAny(), true",
+     "case reflect.Uintptr:", "return Uintptr().AsAny(), true", "case reflect.Float32:",
+     "return Float32().AsAny(), true", "case reflect.Float64:", "return Float64().AsAny(), true",
+     "case reflect.Array:", "return genAnyArray(typ), false", "case reflect.Map:", "return genAnyMap(typ), false",
+     "case reflect.Pointer:", "return Deferred(func() *Generator[any] { return genAnyPointer(typ) }), false",
+     "case reflect.Slice:", "return genAnySlice(typ), false", "case reflect.String:",
+     "return String().AsAny(), true", "case reflect.Struct:", "return genAnyStruct(typ), false", "default:",
+     "panic(fmt.Sprintf(\"unsupported type kind for Make: %v\", typ.Kind()))", "}", "}"] := by rfl
+
+/-- make.go is outside the model (reflection): its functions are re-read from /repo statement by statement — the generator chosen for every kind, the cast to the named type, pointers, arrays, slices, structs -/
+theorem make_pointer_source : Rapid.Generated.body_genAnyPointer =
+    ["{", "elem := typ.Elem()", "elemGen := newMakeGen(elem)", "const pNonNil = 0.5",
+     "return Custom[any](func(t *T) any {", "if flipBiasedCoin(t.s, pNonNil) {", "val := elemGen.value(t)",
+     "ptr := reflect.New(elem)", "ptr.Elem().Set(reflect.ValueOf(val))", "return ptr.Interface()", "} else {",
+     "return reflect.Zero(typ).Interface()", "}", "})", "}"] := by rfl
+
+/-- make.go is outside the model (reflection): its functions are re-read from /repo statement by statement — the generator chosen for every kind, the cast to the named type, pointers, arrays, slices, structs -/
+theorem make_array_source : Rapid.Generated.body_genAnyArray =
+    ["{", "count := typ.Len()", "elemGen := newMakeGen(typ.Elem())", "return Custom[any](func(t *T) any {",
+     "a := reflect.Indirect(reflect.New(typ))", "if count == 0 {", "t.s.drawBits(0)", "} else {",
+     "for i := 0; i < count; i++ {", "e := reflect.ValueOf(elemGen.value(t))", "a.Index(i).Set(e)", "}", "}",
+     "return a.Interface()", "})", "}"] := by rfl
+
+/-- make.go is outside the model (reflection): its functions are re-read from /repo statement by statement — the generator chosen for every kind, the cast to the named type, pointers, arrays, slices, structs -/
+theorem make_slice_source : Rapid.Generated.body_genAnySlice =
+    ["{", "elemGen := newMakeGen(typ.Elem())", "return Custom[any](func(t *T) any {",
+     "repeat := newRepeat(-1, -1, -1, elemGen.String())", "sl := reflect.MakeSlice(typ, 0, repeat.avg())",
+     "for repeat.more(t.s) {", "e := reflect.ValueOf(elemGen.value(t))", "sl = reflect.Append(sl, e)", "}",
+     "return sl.Interface()", "})", "}"] := by rfl
+
+/-- make.go is outside the model (reflection): its functions are re-read from /repo statement by statement — the generator chosen for every kind, the cast to the named type, pointers, arrays, slices, structs -/
+theorem make_struct_source : Rapid.Generated.body_genAnyStruct =
+    ["{", "numFields := typ.NumField()", "fieldGens := make([]*Generator[any], numFields)",
+     "for i := 0; i < numFields; i++ {", "fieldGens[i] = newMakeGen(typ.Field(i).Type)", "}",
+     "return Custom[any](func(t *T) any {", "s := reflect.Indirect(reflect.New(typ))", "if numFields == 0 {",
+     "t.s.drawBits(0)", "} else {", "for i := 0; i < numFields; i++ {",
+     "f := reflect.ValueOf(fieldGens[i].value(t))", "s.Field(i).Set(f)", "}", "}", "return s.Interface()", "})", "}"] := by rfl
+
+/-- make.go is outside the model (reflection): its functions are re-read from /repo statement by statement — the generator chosen for every kind, the cast to the named type, pointers, arrays, slices, structs -/
+theorem make_cast_source : Rapid.Generated.body_castGen_value =
+    ["{", "v := g.gen.value(t)", "return reflect.ValueOf(v).Convert(g.typ).Interface()", "}"] := by rfl
+
+/-- `genAnyMap` re-read from /repo statement by statement: a key that is already in the map rejects the attempt *before* anything is stored (S192 stored first) -/
+theorem make_map_source : Rapid.Generated.body_genAnyMap =
+    ["{", "keyGen := newMakeGen(typ.Key())", "valGen := newMakeGen(typ.Elem())",
+     "return Custom[any](func(t *T) any {", "label := keyGen.String() + \",\" + valGen.String()",
+     "repeat := newRepeat(-1, -1, -1, label)", "m := reflect.MakeMapWithSize(typ, repeat.avg())",
+     "for repeat.more(t.s) {", "k := reflect.ValueOf(keyGen.value(t))", "v := reflect.ValueOf(valGen.value(t))",
+     "if m.MapIndex(k).IsValid() {", "repeat.reject()", "} else {", "m.SetMapIndex(k, v)", "}", "}",
+     "return m.Interface()", "})", "}"] := by rfl
+
+/-- `permGen.value` re-read from /repo statement by statement: a copy of the input is shuffled -/
+theorem perm_source : Rapid.Generated.body_permGen_value =
+    ["{", "s := append(S(nil), g.slice...)", "n := len(s)", "m := n - 1", "if m < 0 {", "m = 0", "}",
+     "repeat := newRepeat(0, m, math.MaxInt, \"permute\")", "for i := 0; repeat.more(t.s); i++ {",
+     "j, _, _ := genUintRange(t.s, uint64(i), uint64(n-1), false)", "s[i], s[j] = s[j], s[i]", "}", "return s", "}"] := by rfl
+
+/-- `ptrGen.value` re-read from /repo statement by statement -/
+theorem ptr_source : Rapid.Generated.body_ptrGen_value =
+    ["{", "pNonNil := float64(1)", "if g.allowNil {", "pNonNil = 0.5", "}", "if flipBiasedCoin(t.s, pNonNil) {",
+     "e := g.elem.value(t)", "return &e", "} else {", "return nil", "}", "}"] := by rfl
+
 end Rapid.C03
